@@ -147,4 +147,73 @@ theorem write_readBack (a b : Registry) (h : sameText a b) (r : Record) (p : Byt
     simp only [readBack, hp, Bool.false_eq_true, if_false]
     exact hot hp
 
+/-! ### learning never changes what is written -/
+
+theorem featureText_same (a b : Registry) (h : sameText a b) (depth : Nat) (f : QFeature) :
+    featureText b depth f = featureText a depth f := by
+  unfold featureText
+  simp only [qualifierFmt_same a b h]
+
+theorem tableTextD_same (a b : Registry) (h : sameText a b) (depth : Nat) (fs : List QFeature) :
+    tableTextD b depth fs = tableTextD a depth fs := by
+  induction fs with
+  | nil => rfl
+  | cons f fs ih =>
+    have h1 := featureText_same a b h depth f
+    cases fs with
+    | nil => simpa [tableTextD] using h1
+    | cons g gs =>
+      simp only [tableTextD] at ih ⊢
+      rw [h1, ih]
+
+/-- a registry that has only learned unknown names (as quoted) writes every record as before -/
+theorem write_same (a b : Registry) (h : sameText a b) (r : Record) : write b r = write a r := by
+  apply write_congr a b r r rfl (fun _ => rfl) rfl rfl rfl _ (fun _ => rfl)
+  unfold tableText
+  exact tableTextD_same a b h _ _
+
+theorem writeAll_same (a b : Registry) (h : sameText a b) (rs : List Record) : writeAll b rs = writeAll a rs := by
+  induction rs with
+  | nil => rfl
+  | cons r rs ih => simp only [writeAll, write_same a b h, ih]
+
+/-! ### `readBack` is idempotent -/
+
+theorem readValue_readValue (a b : Registry) (h : sameText a b) (n v : Bytes) :
+    readValue b n (readValue a n v) = readValue a n v := by
+  unfold readValue
+  rcases h n with h1 | ⟨h1, h2⟩
+  · rw [h1]; split <;> simp_all
+  · rw [h1, h2]; simp
+
+theorem readFeature_readFeature (a b : Registry) (h : sameText a b) (f : QFeature)
+    (hd : propsDistinct f.props = true) : readFeature b (readFeature a f) = readFeature a f := by
+  rw [readFeature_props a f hd]
+  have hn := readProps_norm a f.props hd
+  simp only [readFeature]
+  have : readItems b (readProps a f.props) = readItems a f.props := by
+    unfold readItems
+    rw [propsItems_readProps a f.props hd]
+    unfold readItems
+    rw [List.map_map]
+    apply List.map_congr_left
+    intro kv _
+    simp only [Function.comp, readValue_readValue a b h]
+  rw [this, propsOfItems_readItems a f.props hd]
+
+/-- **the record that was read back reads back as itself**: `readBack` under a registry that writes
+the same text is idempotent (accession with its REGION suffix, no region; re-read `Props`; the kept
+block) -/
+theorem readBack_idem (a b : Registry) (h : sameText a b) (r : Record) (p : Bytes)
+    (hd : tableDistinct r.table = true) :
+    readBack b (readBack a r p) p = readBack a r p := by
+  have hd' : ∀ x ∈ r.table, propsDistinct x.props = true := by
+    simpa [tableDistinct, List.all_eq_true] using hd
+  have ht : (r.table.map (readFeature a)).map (readFeature b) = r.table.map (readFeature a) := by
+    rw [List.map_map]
+    apply List.map_congr_left
+    intro f hf
+    exact readFeature_readFeature a b h f (hd' f hf)
+  simp only [readBack, ht, accessionLine, List.append_nil]
+
 end Gts.GenBank
